@@ -114,6 +114,8 @@ theorem shapeOK_coll (k : SK) (t : Ty) (es) : shapeOK w (.coll k t) (.ive es) = 
   simp [shapeOK]
 theorem shapeOK_tup (ts : List Ty) (es) : shapeOK w (.tupleHet ts) (.ive es) = shapeITup w ts es := by
   simp [shapeOK]
+theorem shapeOK_nt (c : Nat) (es) : shapeOK w (.nt c) (.ive es) = shapeITup w (w.ntTys c) es := by
+  simp [shapeOK]
 theorem shapeOK_map (k : MK) (kt vt : Ty) (es) : shapeOK w (.map k kt vt) (.ive es) = shapeIMap w kt vt es := by
   simp [shapeOK]
 theorem shapeOK_cls (c : Nat) (es) : shapeOK w (.cls c) (.cve es) = shapeC w (w.fields c) es := by
